@@ -157,6 +157,34 @@ class C05Operators(Bounded):
                         pat = ["WM"] + pat
                     if norm(pat) != norm(atoms_of_value(v)):
                         fail("pattern", f"value {v!r}{' (cased)' if cased else ''} is rendered as {q!r}: the target reads the pattern {norm(pat)} (operands of startswith / endswith / contains are literal), the rule value is {norm(atoms_of_value(v))}", [v, cased])
+        # a string is rendered the same way as a member of an in-list and on its own (escaping, quoting, filtered characters, wildcards)
+        for v in ("a&b", "x&", "&y", "a b", 'q"uote', "w*ild", "e\\*sc", "p:q", "plain"):
+            ev += 1
+            try:
+                single = TextQueryTestBackend().convert(SigmaCollection.from_dicts([{"title": "t", "logsource": {"category": "c"}, "detection": {"s": {"f": v}, "condition": "s"}}]))[0]
+                inlist = TextQueryTestBackend().convert(SigmaCollection.from_dicts([{"title": "t", "logsource": {"category": "c"}, "detection": {"s": {"f": [v, "zz"]}, "condition": "s"}}]))[0]
+                lit = re.sub(r"^f ?(=|match|startswith|endswith|contains) ?", "", single)
+                ok = inlist.startswith("f in (") and lit in inlist
+            except Exception as e:
+                single, inlist, ok = f"{type(e).__name__}: {e}", "", False
+            if not ok:
+                seen["in-list"] = seen.get("in-list", 0) + 1
+                if seen["in-list"] <= 2:
+                    fails.append({"text": f"the value {v!r} is rendered {single!r} on its own but {inlist!r} as member of a list: the list does not contain the same literal", "input": [v]})
+        # numbers are rendered with their full value (read back from the query, they are the number of the rule), alone, in lists and compared
+        for num in (0, 5, -3, 1.5, 0.5, 1e-05, 2.5e-07, 1234.0000005, 1700000000.5, 123456789012, 1e21, -0.000001):
+            for shape, det in (("f", {"f": num}), ("f (list)", {"f": [num, 7]}), ("f|gte", {"f|gte": num})):
+                ev += 1
+                try:
+                    q = TextQueryTestBackend().convert(SigmaCollection.from_dicts([{"title": "t", "logsource": {"category": "c"}, "detection": {"s": det, "condition": "s"}}]))[0]
+                    toks = re.findall(r"(?<![\w.])-?\d+(?:\.\d+)?(?:[eE][-+]?\d+)?", q)
+                    ok = any(float(t) == float(num) for t in toks)
+                except Exception as e:
+                    q, ok = f"{type(e).__name__}: {e}", False
+                if not ok:
+                    seen["number"] = seen.get("number", 0) + 1
+                    if seen["number"] <= 2:
+                        fails.append({"text": f"the number {num!r} of the rule ({shape}) is rendered as {q!r}: read back, no number of the query equals it", "input": [repr(num), shape]})
         return {"evaluations": ev, "distinct_nontrivial": ev, "failures": fails, "failure_counts": seen,
                 "bound": f"all values of <= {maxlen} pieces over {pieces}, plain and case-sensitive, on the test backend (operators with literal operands)",
                 "rule": "distinct (value, cased)", "samples": [{"value": "a?c*", "query": 'f match "a?c*"'}], "exhaustive": True}
